@@ -38,6 +38,15 @@ REQ = {"correct_tip_offset": ["compute_tip_position"], "correct_force_slope": ["
        "correct_split_approach_retract": ["compute_tip_position"]}
 
 
+DECL0 = {}
+
+
+def declarations():
+    from nanite import preproc as _pp
+    return {sid: (list(_pp.get_steps_required(sid) or []), list(getattr(_pp.get_func(sid), "steps_optional", None) or []))
+            for sid in STEPS}
+
+
 def req_ok(steps):
     return all(set(REQ.get(s, [])) <= set(steps[:i]) for i, s in enumerate(steps))
 
@@ -68,8 +77,18 @@ def st_valid_request(draw):
 def st_invalid_request(draw):
     base = draw(st_valid_request())
     steps, opts = list(base["steps"]), copy.deepcopy(base["opts"])
-    kind = draw(st.sampled_from(["unknown_step", "missing_prerequisite", "bad_option_value", "bad_option_name"]))
-    if kind == "unknown_step":
+    kind = draw(st.sampled_from(["unknown_step", "missing_prerequisite", "wrong_order", "bad_option_value",
+                                 "bad_option_name"]))
+    if kind == "wrong_order":
+        # every step is there, but one that needs others comes first
+        movable = [x for x in steps if REQ.get(x)]
+        if movable:
+            m = draw(st.sampled_from(movable))
+            steps.remove(m)
+            steps.insert(0, m)
+        else:
+            steps, opts = ["correct_split_approach_retract", "compute_tip_position"], {}
+    elif kind == "unknown_step":
         steps.insert(draw(st.integers(0, len(steps))), draw(st.sampled_from(["bogus_step", "compute_tip_positio", ""])))
     elif kind == "missing_prerequisite":
         s = draw(st.sampled_from(["correct_tip_offset", "correct_force_slope", "correct_split_approach_retract"]))
@@ -92,7 +111,7 @@ def st_invalid_request(draw):
                 opts["correct_force_slope"] = {which: "no_such_" + which}
         else:
             opts["correct_tip_offset"] = {"bogus_option": 1}
-    if req_ok(steps) and kind == "missing_prerequisite":
+    if req_ok(steps) and kind in ("missing_prerequisite", "wrong_order"):
         steps = ["correct_tip_offset"]
         opts = {}
     return {"steps": steps, "opts": opts, "valid": False, "kind": kind}
@@ -192,6 +211,7 @@ def apply_fresh(curves, steps, opts):
 def check_case(case, ctx):
     curves = Curves(case["src"], ctx)
     desc0 = {"curve": case["src"]["kind"]}
+    DECL0.setdefault("d", declarations())
     if case.get("attr_inplace"):
         other = curves.fresh()
         other.preprocessing.extend(["compute_tip_position", "correct_tip_offset"])
@@ -316,6 +336,11 @@ def check_case(case, ctx):
         if columns(f) != fresh_cols:
             edits = True
         last_req = op
+    # the step declarations (module-level) are not changed by any request, accepted or rejected
+    now = declarations()
+    ctx.check(now == DECL0["d"], "step-declarations-changed", desc0,
+              f"required/optional steps now {[(k, v) for k, v in now.items() if v != DECL0['d'][k]]}, "
+              f"at the start of the run {[(k, v) for k, v in DECL0['d'].items() if v != now[k]]}")
     raw1 = raw_snapshot(idnt)
     ctx.check(raw0 == raw1, "raw-data-modified", desc0, f"raw columns changed: {[c for c in raw0 if raw0[c] != raw1.get(c)]}")
     if case["src"]["kind"] == "file":
